@@ -498,3 +498,220 @@ func ZZC04Ops() {
 	}
 	zzWitness("end")
 }
+
+// ---- inference over generated literals, against a set-based statement of "the strictest common type" ----
+
+type zzInfEl struct {
+	src   string
+	kind  byte   // 'c' constant, 'e' empty literal (typ = its shape), 'v' variable, 'l' literal that contains a composite variable (treated like a variable)
+	typ   string // own type (shape for 'e')
+	basic bool
+}
+
+var zzInfPool = []zzInfEl{
+	{"1", 'c', "num", true}, {"\"s\"", 'c', "string", true}, {"[1]", 'c', "[]num", false}, {"[\"s\"]", 'c', "[]string", false},
+	{"[1 \"s\"]", 'c', "[]any", false}, {"[]", 'e', "[]", false}, {"{}", 'e', "{}", false}, {"{a:1}", 'c', "{}num", false},
+	{"x", 'v', "[]num", false}, {"y", 'v', "[]string", false}, {"z", 'v', "[]any", false}, {"w", 'v', "[][]num", false},
+	{"m", 'v', "{}num", false}, {"u", 'v', "any", true}, {"[[1]]", 'c', "[][]num", false}, {"[[]]", 'e', "[][]", false},
+	{"[x]", 'l', "[][]num", false}, {"[z]", 'l', "[][]any", false}, {"[[1] []]", 'c', "[][]num", false}, {"[[1] [\"s\"]]", 'c', "[][]any", false},
+	{"[x []]", 'l', "[][]num", false}, {"true", 'c', "bool", true}, {"[{}]", 'e', "[]{}", false}, {"{k:x}", 'l', "{}[]num", false},
+}
+
+const zzInfSetup = "x := [1]\ny := [\"s\"]\nz := [1 \"s\"]\nw := [[1]]\nm := {a:1}\nu:any\n"
+const zzInfUses = "print x y z w m u\n"
+
+func zzInfAssignable(e zzInfEl, t string) bool {
+	switch e.kind {
+	case 'v', 'l':
+		return t == e.typ || t == "any"
+	case 'c':
+		return zzConvertible(t, e.typ)
+	}
+	return zzAcceptsEmpty(t, e.typ)
+}
+
+// zzGen: t is at least as general as u.
+func zzGen(t, u string) bool {
+	if t == "any" || t == u {
+		return true
+	}
+	if zzIsArr(t) && zzIsArr(u) || zzIsMap(t) && zzIsMap(u) {
+		return zzGen(zzSub(t), zzSub(u))
+	}
+	return false
+}
+
+func zzMinimal(ts []string) []string {
+	var out []string
+	for _, t := range ts {
+		min := true
+		for _, u := range ts {
+			if u != t && zzGen(t, u) {
+				min = false
+			}
+		}
+		if min {
+			out = append(out, t)
+		}
+	}
+	return out
+}
+
+// zzStrictestCommon: the least general type every element is assignable to;
+// where empty literals leave a position unconstrained it is `any`.
+func zzStrictestCommon(els []zzInfEl) string {
+	cands := zzTypes(4)
+	var common []string
+	for _, t := range cands {
+		ok := true
+		for _, e := range els {
+			if !zzInfAssignable(e, t) {
+				ok = false
+			}
+		}
+		if ok {
+			common = append(common, t)
+		}
+	}
+	min := zzMinimal(common)
+	if len(min) == 1 {
+		return min[0]
+	}
+	var upper []string
+	for _, t := range cands {
+		ok := true
+		for _, m := range min {
+			if !zzGen(t, m) {
+				ok = false
+			}
+		}
+		if ok {
+			upper = append(upper, t)
+		}
+	}
+	j := zzMinimal(upper)
+	if len(j) != 1 {
+		panic("zzStrictestCommon: no unique join")
+	}
+	return j[0]
+}
+
+func zzInfTypeof(src string) (string, bool) {
+	p := &zzPlat{}
+	ev := NewEvaluator(p)
+	prog, err := zzParse(ev, src)
+	if err != nil {
+		zzLog(src + err.Error())
+		return err.Error(), false
+	}
+	if rerr := ev.Eval(prog); rerr != nil || len(p.trace) == 0 {
+		return "run failed", false
+	}
+	return p.trace[0], true
+}
+
+// ZZC04InferGen: array and map literals over every K-tuple of the element
+// pool (constants, empty literals, variables of several types, literals
+// that contain variables): the inferred type is the strictest common type,
+// the same for every order of the elements, and never a parser crash.
+func ZZC04InferGen() {
+	K := zzParam("K", 2)
+	n := 2 + zzChoice("n", K-1)
+	form := zzChoice("form", 2) // 0 array literal, 1 map literal
+	els := make([]zzInfEl, n)
+	for i := range els {
+		els[i] = zzInfPool[zzChoice("el", len(zzInfPool))]
+	}
+	render := func(order []int) string {
+		var parts []string
+		for pos, i := range order {
+			if form == 0 {
+				parts = append(parts, els[i].src)
+			} else {
+				parts = append(parts, "k"+string(rune('a'+pos))+":"+els[i].src)
+			}
+		}
+		lit := "[" + strings.Join(parts, " ") + "]"
+		if form == 1 {
+			lit = "{" + strings.Join(parts, " ") + "}"
+		}
+		return zzInfSetup + "v := " + lit + "\nprint (typeof v)\n" + zzInfUses
+	}
+	orders := [][]int{{0, 1}, {1, 0}}
+	if n == 3 {
+		orders = [][]int{{0, 1, 2}, {0, 2, 1}, {1, 0, 2}, {1, 2, 0}, {2, 0, 1}, {2, 1, 0}}
+	}
+	// (the engine iterates Go maps in key order, and the keys are named by position: permuting
+	// the elements therefore also permutes the order in which parseMapLiteral combines the types)
+	first, ok := zzInfTypeof(render(orders[0]))
+	zzAssert(ok, "C04 infergen: an inferred declaration from a literal is accepted and runs")
+	if !ok {
+		return
+	}
+	for _, o := range orders[1:] {
+		got, ok := zzInfTypeof(render(o))
+		if got != first {
+			zzLog("C04 infergen order dependence: " + render(orders[0]) + " -> " + first + " but " + render(o) + " -> " + got)
+		}
+		zzAssert(ok && got == first, "C04 infergen: the inferred type does not depend on the order of the elements")
+	}
+	// the oracle applies unless a literal that contains variables would have to be generalised:
+	// whether such a literal is converted piecewise or counts as a variable of its own type is
+	// left open by the specification
+	common := zzStrictestCommon(els)
+	ambiguous := false
+	for _, e := range els {
+		if e.kind == 'l' && e.typ != common {
+			ambiguous = true
+		}
+	}
+	if !ambiguous {
+		want := "[]" + common
+		if form == 1 {
+			want = "{}" + want[2:]
+		}
+		if first != "print:"+want+"\n" {
+			zzLog("C04 infergen: want " + want + " got " + first + " for " + render(orders[0]))
+		}
+		zzAssert(first == "print:"+want+"\n", "C04 infergen: inference picks the strictest common type of the elements")
+		zzReach("infergen-oracle")
+	}
+	// the same literal assigned where the any-based composite of its structure is required:
+	// accepted exactly when it is a constant (no variable inside) or already has that type
+	inferred := strings.TrimSuffix(strings.TrimPrefix(first, "print:"), "\n")
+	target := zzAnyfied(inferred)
+	allConst, hasBasicVar := true, false
+	for _, e := range els {
+		if e.kind == 'v' || e.kind == 'l' {
+			allConst = false
+		}
+		if e.kind == 'v' && e.basic {
+			hasBasicVar = true
+		}
+	}
+	if !hasBasicVar {
+		wantAcc := allConst || target == inferred
+		for _, o := range orders {
+			src := render(o)
+			src = strings.Replace(src, "v := ", "v:"+target+"\nv = ", 1)
+			p := &zzPlat{}
+			ev := NewEvaluator(p)
+			_, err := zzParse(ev, src)
+			if (err == nil) != wantAcc {
+				zzLog("C04 infergen assign: want accept " + map[bool]string{true: "yes", false: "no"}[wantAcc] + " for\n" + src)
+			}
+			zzAssert((err == nil) == wantAcc, "C04 infergen: a literal is assignable to the any-based composite of its structure exactly when it contains no variable (in every order of its elements)")
+		}
+		zzReach("infergen-assign")
+	}
+	zzReach("infergen-ok")
+	zzWitness("end")
+}
+
+// zzAnyfied: t with its final basic subtype replaced by any.
+func zzAnyfied(t string) string {
+	if zzIsComp(t) {
+		return t[:2] + zzAnyfied(zzSub(t))
+	}
+	return "any"
+}
